@@ -40,7 +40,10 @@
 #include "geoslib_old_f.h"
 
 #include <algorithm>
+#include <csetjmp>
+#include <csignal>
 #include <memory>
+#include <sys/time.h>
 
 using namespace vf;
 
@@ -149,7 +152,7 @@ struct FitCase
   double constSill = 0.;         // >0: Constraints(constantSillValue)
   OptC opt;
   int krigSeed = 1;
-  int api = 0;                   // fit_sills: 0 old model_fitting_sills, 1 ModelOptimSillsVario
+  int api = 0;                   // fit_sills: 0 old model_fitting_sills, 1 ModelOptimSillsVario (2: see runSills)
   template<class A> void io(A& x)
   {
     x("ndim", ndim)("nvar", nvar)("source", source)("calc", calc)("truth", truth)("dirs", dirs);
@@ -192,8 +195,10 @@ static Eff effective(const FitCase& c)
   {
     for (auto& d : c.dirs)
       if (std::fabs(d.codir[2]) < 1e-10) n2++; else n3++;
-    e.no3d = n3 <= 0;
-    e.iso2d = n2 <= 0;
+    // the library recomputes both locks from the directions (a lock asked by the caller is released, finding
+    // C17-lock-iso2d); a parameter counts as inferred only if it is under both readings
+    e.no3d = e.no3d || n3 <= 0;
+    e.iso2d = e.iso2d || n2 <= 0;
   }
   if (ndir <= c.ndim) e.rot = false;
   if (ndir <= 1) e.aniso = e.rot = false;
@@ -219,7 +224,7 @@ static bool paramActive(const FitCase& c, const Eff& e, const ConsC& k)
     case 1:
       if (k.iv1 == 0) return ti.hasRange > 0;
       if (ti.hasRange == 0 || !e.aniso) return false;
-      if (c.ndim == 2) return k.iv1 == 1;
+      if (c.ndim == 2) return k.iv1 == 1 && !e.iso2d;
       if (k.iv1 == 1) return !e.iso2d;
       if (k.iv1 == 2) return !e.no3d;
       return false;
@@ -329,12 +334,12 @@ static OptC genOpt(int nvar)
   // known finding C17-samerot-rotation-lost (replay file only, null dereference): when every structure able to carry the
   // shared rotation is discarded, the rotation parameter keeps the rank of a deleted structure
   if (o.lock_samerot && !o.noreduce && !enabled("samerot-reduce")) o.noreduce = 1;
-  o.keep_intstr = G::pct(10);
+  o.keep_intstr = G::pct(8);
   o.goulard = nvar > 1 ? !G::pct(3) : !G::pct(25);
   o.intrinsic = enabled("intrinsic") ? G::pct(8) : 0; // known finding C17-intrinsic-crash (unallocated array)
   o.wmode = G::pick({2, 2, 0, 1, 3});
-  // the default (1000) costs minutes under ASan when the search zig-zags: kept rare
-  o.maxiter = G::pct(3) ? 1000 : G::pick({200, 100, 100, 50, 20, 3});
+  // the default (1000) costs minutes under ASan when the search zig-zags: not generated (see the termination check)
+  o.maxiter = G::pick({100, 50, 50, 20, 20, 3}); // also bounds the Goulard iterations inside every evaluation: cost ~ maxiter^2
   o.tolsigma = G::pick({5., 5., 5., 0., 20.});
   return o;
 }
@@ -460,6 +465,13 @@ static FitCase genFitCommon(bool sillsOnly)
     }
   }
   if (c.types.empty()) c.types.push_back(2);
+  // keep_intstr without any intrinsic structure is a documented refusal: mostly give it one
+  if (c.opt.keep_intstr && c.constSill <= 0 && G::pct(70))
+  {
+    bool has = false;
+    for (int t : c.types) has = has || infoOf(t).minOrder == 0;
+    if (!has) c.types.back() = G::pick({11, 11, 13, 12});
+  }
   if (c.constSill > 0) c.opt.goulard = 1;
   double vref = 0;
   for (auto& s : c.truth) vref += s.a[0] * s.a[0];
@@ -477,6 +489,12 @@ static FitCase genSills()
   // read the vector of constant sills that only model_auto_fit expands
   if (c.constSill > 0 && !(enabled("sills-constsill") && (c.nvar == 1 || enabled("constsill-multivar")))) c.constSill = 0.;
   if (c.constSill > 0) c.api = 0;
+  // the new class is only reachable on variograms without unusable lag (see runSills)
+  if (c.api == 1 && G::pct(70))
+  {
+    c.empties.clear();
+    if (c.source == 0 && c.noiseSeed % 2 == 0) c.noiseSeed++;
+  }
   return c;
 }
 
@@ -571,6 +589,15 @@ static std::unique_ptr<Vario> buildVario(const FitCase& c, Ctx& ctx)
             v->setGg(id, i, j, ip, g);
             v->setSw(id, i, j, ip, 1. + std::floor((hashU(c.noiseSeed, 3 * cnt + 2) + 1.) * 100.));
             if (ip > 0) v->setHh(id, i, j, ip, c.dirs[(size_t)id].dpas * (ip + 0.2 * hashU(c.noiseSeed, 7 * (id * 64 + ip) + 5)));
+            else if (c.noiseSeed % 2 != 0)
+            { // first lag as a calculation gives it: a short positive mean distance (otherwise hh = 0: lag ignored)
+              double h0 = c.dirs[(size_t)id].dpas * 0.3;
+              VectorDouble d0;
+              for (double cd : c.dirs[(size_t)id].codir) d0.push_back(cd * h0);
+              double g0 = truth->evalIvarIpas(1., d0, i, j, &mode) * (1. + c.noiseAmp * hashU(c.noiseSeed, 3 * cnt));
+              v->setHh(id, i, j, ip, h0);
+              v->setGg(id, i, j, ip, g0);
+            }
           }
       }
   }
@@ -814,7 +841,7 @@ static bool checkReload(const Model& m, const std::string& site, Ctx& ctx)
     for (int i = 0; i < nvar; i++) smax = std::max(smax, std::fabs(m.getSill(ic, i, i)));
     for (int i = 0; i < nvar; i++)
       for (int j = 0; j < nvar; j++)
-        if (std::fabs(m.getSill(ic, i, j) - y->getSill(ic, i, j)) > 1e-10 * smax)
+        if (std::fabs(m.getSill(ic, i, j) - y->getSill(ic, i, j)) > 1e-10 * smax + 1e-13 * std::fabs(m.getSill(ic, i, j)))
         {
           ctx.fail(site + ":reload-sill", fmt("structure %d sill(%d,%d): %.17g -> %.17g", ic, i, j, m.getSill(ic, i, j), y->getSill(ic, i, j)));
           return false;
@@ -828,13 +855,15 @@ static bool checkReload(const Model& m, const std::string& site, Ctx& ctx)
     {
       VectorDouble ra = a->getRanges(), rb = b->getRanges();
       for (int d = 0; d < ndim; d++)
-        if (!relEq(ra[d], rb[d], 1e-10))
+        // ranges that differ by less than 2e-10 (relative) are written as one isotropic range (Tensor: EPSILON10)
+        if (!relEq(ra[d], rb[d], 5e-10))
         {
+          if (verboseMode()) { std::string txt; readFile(path, txt); diag(txt); }
           ctx.fail(site + ":reload-range", fmt("structure %d range[%d]: %.17g -> %.17g", ic, d, ra[d], rb[d]));
           return false;
         }
       // the rotation only matters (and is only stored) for an anisotropic structure
-      if (!a->isIsotropic())
+      if (!a->isIsotropic() && !b->isIsotropic())
         for (int i = 0; i < ndim; i++)
           for (int j = 0; j < ndim; j++)
             if (std::fabs(a->getAnisoRotMat(i, j) - b->getAnisoRotMat(i, j)) > 1e-10)
@@ -1215,12 +1244,66 @@ static void validate(const FitCase& c, Model& m, const std::string& site, Ctx& c
   if (!checkKriging(c, m, c.hmax(), site, ctx)) return;
 }
 
+// ------------------------------------------------------------------ termination --------
+// "Fitting either reports failure or returns a model": a call that consumes kCpuLimit seconds of CPU time of this
+// process (ITIMER_VIRTUAL: independent of the load of the machine; ordinary cases need 0.01-10 s under ASan with
+// maxiter <= 100) is reported as not terminating.  The call is left by siglongjmp (single thread, no lock held by the
+// fitting code; what it allocated is leaked).
+static const int kCpuLimit = 60;
+static sigjmp_buf gJmp;
+static volatile sig_atomic_t gArmed = 0;
+static void onCpuAlarm(int)
+{
+  if (!gArmed) return;
+  gArmed = 0;
+  siglongjmp(gJmp, 1);
+}
+template<class F> static bool terminates(F f)
+{
+  struct sigaction sa;
+  memset(&sa, 0, sizeof sa);
+  sa.sa_handler = onCpuAlarm;
+  sigemptyset(&sa.sa_mask);
+  sigaction(SIGVTALRM, &sa, nullptr);
+  struct itimerval off;
+  memset(&off, 0, sizeof off);
+  if (sigsetjmp(gJmp, 1) != 0)
+  {
+    setitimer(ITIMER_VIRTUAL, &off, nullptr);
+    return false;
+  }
+  struct itimerval on = off;
+  on.it_value.tv_sec = kCpuLimit;
+  gArmed = 1;
+  setitimer(ITIMER_VIRTUAL, &on, nullptr);
+  try { f(); }
+  catch (...)
+  {
+    gArmed = 0;
+    setitimer(ITIMER_VIRTUAL, &off, nullptr);
+    throw;
+  }
+  gArmed = 0;
+  setitimer(ITIMER_VIRTUAL, &off, nullptr);
+  return true;
+}
+
 // ------------------------------------------------------------------ fit_vario -----------
+// C17_TIMING=1: CPU seconds per stage on exit (performance measurements of the report)
+struct Timing
+{
+  double t[3] = {0, 0, 0};
+  ~Timing() { if (getenv("C17_TIMING")) diag(fmt("TIMING build-vario %.1f s, fit %.1f s, validate %.1f s", t[0], t[1], t[2])); }
+};
+static Timing gT;
+static double cpuNow() { return (double)clock() / CLOCKS_PER_SEC; }
 static void runFit(const FitCase& c, Ctx& ctx)
 {
   resetGlobals(c.ndim);
   labelFit(c, ctx);
+  double t0 = cpuNow();
   std::unique_ptr<Vario> v = buildVario(c, ctx);
+  gT.t[0] += cpuNow() - t0;
   if (!v) { ctx.label("vario:not-built"); return; }
   // a variogram without any usable lag is outside the property ("experimental variogram")
   int usable = 0;
@@ -1238,11 +1321,22 @@ static void runFit(const FitCase& c, Ctx& ctx)
   Option_AutoFit ma = buildMauto(c.opt);
   ctx.at("Model::fit");
   int err = 0;
-  try { err = m->fit(v.get(), types, cs, ov, ma, verboseMode()); }
+  struct Lap { double t0; int k; Lap(int kk) : t0(cpuNow()), k(kk) {} ~Lap() { gT.t[k] += cpuNow() - t0; } };
+  std::unique_ptr<Lap> lap(new Lap(1));
+  try
+  {
+    if (!terminates([&]() { err = m->fit(v.get(), types, cs, ov, ma, verboseMode()); }))
+    {
+      m.release(); // left in an unknown state by the interrupted call
+      ctx.fail("fit:no-termination", fmt("Model::fit still running after %d s of CPU time", kCpuLimit));
+      return;
+    }
+  }
   catch (const LibExit&) { throw; }
   catch (const std::exception& e) { ctx.fail("fit:exception:" + excKey(e), std::string("Model::fit let an exception escape: ") + e.what()); return; }
   ctx.sig = sigFit(c);
   ctx.nontrivial(c.nvar >= 2 || !c.cons.empty() || c.constSill > 0 || c.dirs.size() >= 2);
+  lap.reset(new Lap(2));
   if (err != 0) { ctx.label("fit:error-returned"); return; }
   ctx.label("fit:success");
   validate(c, *m, "fit", ctx, true);
@@ -1260,8 +1354,9 @@ static void runSills(const FitCase& c, Ctx& ctx)
   // known finding C17-sills-new-empty-lag (replay file only, heap overflow): ModelOptimSillsVario sizes its compressed
   // arrays with the number of usable lags but fills them with every lag, so it is only called on variograms without
   // any unusable lag unless C17_ENABLE=sills-new-empty-lag
-  int api = c.api;
-  if (api == 1 && !enabled("sills-new-empty-lag"))
+  int api = c.api; // 2 (never generated, replay files only): the new class without this precaution
+  if (api == 2) api = 1;
+  else if (api == 1 && !enabled("sills-new-empty-lag"))
     for (int id = 0; id < v->getDirectionNumber(); id++)
       for (int k = 0; k < v->getDirSize(id); k++)
         if (!v->isLagCorrect(id, k)) api = 0;
@@ -1290,11 +1385,16 @@ static void runSills(const FitCase& c, Ctx& ctx)
   o.goulard = 1;
   Option_VarioFit ov = buildOptvar(o);
   Option_AutoFit ma = buildMauto(o);
-  int err;
+  int err = 0;
   if (api == 0)
   {
     ctx.at("model_fitting_sills");
-    err = model_fitting_sills(v.get(), m.get(), cs, ov, ma);
+    if (!terminates([&]() { err = model_fitting_sills(v.get(), m.get(), cs, ov, ma); }))
+    {
+      m.release();
+      ctx.fail("sills-old:no-termination", fmt("model_fitting_sills still running after %d s of CPU time", kCpuLimit));
+      return;
+    }
   }
   else
   {
@@ -1423,7 +1523,15 @@ static void runVMap(const VMapCase& c, Ctx& ctx)
   Option_AutoFit ma = buildMauto(c.opt);
   ctx.at("Model::fitFromVMap");
   int err = 0;
-  try { err = m->fitFromVMap(vmap.get(), types, cs, ov, ma, verboseMode()); }
+  try
+  {
+    if (!terminates([&]() { err = m->fitFromVMap(vmap.get(), types, cs, ov, ma, verboseMode()); }))
+    {
+      m.release();
+      ctx.fail("vmap:no-termination", fmt("Model::fitFromVMap still running after %d s of CPU time", kCpuLimit));
+      return;
+    }
+  }
   catch (const LibExit&) { ctx.fail("vmap:lib-exit", "Model::fitFromVMap called the library's exit function (messageAbort)"); return; }
   catch (const std::exception& e) { ctx.fail("vmap:exception:" + excKey(e), std::string("Model::fitFromVMap let an exception escape: ") + e.what()); return; }
   Hash h;
